@@ -23,6 +23,17 @@ from pyvc.values import TBool, TDict, TInt, TList, TObj, TReal, TStr, ValS, decl
 from contracts.c05_caches import (ARR, CONTENT, DATA, ENTRY, P, allocated, cont, cont_t, contf, hashf, heap_preserved, kq,
                                   matches_c)
 
+from pyvc.plug_c05more import TStoredDict  # noqa: E402
+from pyvc.values import TStruct  # noqa: E402
+
+# A dictionary handed out by a cache MAY BE the stored one (MemoryFullCache(is_memory_shared=False)._read_data returns the stored dict
+# itself): results of the read contracts are typed DATA_S = DATA + "registered as a possible alias of the store"; writing into such a
+# dictionary sets the ghost ``fc_entry_written`` (pyvc/plug_c05more.py), which no contract lists in its frame - so every verified
+# function is proved not to write into a dictionary it got from the cache (unless it says so).
+DATA_S = TStoredDict(DATA.k, DATA.v)
+ENTRY_S = TStruct(ENTRY.cls, {"inputs": DATA, "outputs": DATA_S, "jacobian": DATA_S})
+declare_ghost("fc_entry_written", z3.BoolSort())
+
 CELL = "multiprocessing.sharedctypes.Synchronized"
 schema(CELL, {"value": TInt})
 GD = TDict(TStr, DATA)  # group -> data
@@ -342,7 +353,7 @@ class _WriteData(_Storage):
 
 class _ReadData(_Storage):
     params = {"index": TInt, "group": TStr}
-    returns = DATA
+    returns = DATA_S
     modifies = ("heap:arr",)
 
     def requires(self, c):
@@ -611,7 +622,7 @@ def _scan_inv(hit):
 class ReadInputOutputData(_Bfc):
     targets = (BFC + "._read_input_output_data",)
     params = {"indices": IDX, "input_data": DATA}
-    returns = ENTRY
+    returns = ENTRY_S
     modifies = ("heap:arr",)
     loops = {0: LoopSpec(anchor="indices", modifies=("heap:arr",), inv=_scan_inv(lambda v0, ci, cs: ci == cs))}
 
@@ -662,7 +673,7 @@ def wtol_hit(v0, ci, cs):
 class BfcGetitem(_Bfc):
     targets = (BFC + ".__getitem__",)
     params = {"input_data": DATA}
-    returns = ENTRY
+    returns = ENTRY_S
     modifies = ("heap:arr",)
     loops = {0: LoopSpec(anchor="self._hashes_to_indices.values()", modifies=("heap:arr",), inv=_buckets_inv, local_types={"indices": IDX}),
              1: LoopSpec(anchor="indices", modifies=("heap:arr",), inv=_scan_inv(wtol_hit))}
@@ -694,7 +705,7 @@ class BfcGetitem(_Bfc):
 @register
 class BfcLastEntry(_Bfc):
     targets = (BFC + ".last_entry",)
-    returns = ENTRY
+    returns = ENTRY_S
     modifies = ("heap:arr",)
 
     def requires(self, c):
